@@ -158,6 +158,8 @@ def flatten(goal, guard=None):
 def generate(contract, ov):
     """Symbolically execute the real function; -> (cx, obligations, meta)."""
     fn, seg, sha, owner = source.get_function(contract.path, contract.qualname)
+    from .pyvc import values as _values
+    _values.reset_defs()
     cx, I = make_context(contract, ov)
     st, args, kwargs, info = contract.setup(cx, I, ov)
     st = st.gset("__class__", contract.owner_class)
@@ -217,7 +219,8 @@ def verify_unit(contract, ov, timeout_ms=None, workers=1):
         ur.source_sha, ur.paths, ur.lines = meta["sha"], meta["paths"], meta["lines"]
         ur.hints = sorted(set(cx.hints))
         ur.notes = list(cx.notes)
-        axioms = list(cx.axioms) + cx.distinct_consts_axiom()
+        from .pyvc import values as _values
+        axioms = list(cx.axioms) + cx.distinct_consts_axiom() + list(_values.DEFS)
         groups, bychain = [], {}
         for ob in obs:
             ch = ob.meta.get("chain")
